@@ -49,6 +49,26 @@ pub fn capacity_grid<G: AffineRepr + 'static>(shape: &Shape, seed: u64, vals: im
         if !l.is_empty() {
             variants.push(("one round too few", R1CSProof::verif_from_parts(pts, scs, InnerProductProof::verif_from_parts(l[1..].to_vec(), r[1..].to_vec(), a, b))));
         }
+        // ... and with too few generators the insufficient-generators error comes first, whatever the proof looks like
+        if pad >= 2 {
+            for (what, bad) in variants.iter() {
+                let bp = BulletproofGens::<G>::new(pad - 1, 1);
+                rewind_for_verifier(&shr0);
+                let r1 = catch(|| {
+                    let mut vt = new_verifier_transcript(shape);
+                    build_verifier(shape, &shr0, &mut vt).verify(bad, &pc, &bp)
+                });
+                rewind_for_verifier(&shr0);
+                let r2 = catch(|| {
+                    let mut vt: Transcript = new_verifier_transcript(shape);
+                    let v = build_verifier(shape, &shr0, &mut vt);
+                    let mut rng = rand_chacha::ChaChaRng::seed_from_u64(seed);
+                    batch_verify(&mut rng, vec![(v, bad)], &pc, &bp)
+                });
+                let fine = |r: &Result<Result<(), R1CSError>, String>| matches!(r, Ok(Err(R1CSError::InvalidGeneratorsLength)));
+                out.push((format!("a proof with {} and capacity {} < padded size {}: verify {:?}, batch_verify {:?} (InvalidGeneratorsLength)", what, pad - 1, pad, r1, r2), fine(&r1) && fine(&r2)));
+            }
+        }
         for (what, bad) in variants {
             for cap in [pad, 2 * pad + 1] {
                 let bp = BulletproofGens::<G>::new(cap, 1);
